@@ -35,6 +35,8 @@ package totp2fa
 //@   ensures[C07] halfauth_only_cleared_by_login: each Sess.Del("halfauth") => before Sess.Put("uid", _)
 //@   -- C09: a login is announced with the after-auth event (which is what starts the idle clock)
 //@   ensures[C09] login_announced: each Sess.Put("uid", _) => after Fire("After", EventAuth, _, _, _)
+//@   -- C09: the stamp the announcement queues is not taken back by anything queued after it
+//@   ensures[C09] stamp_survives: each Fire("After", EventAuth, _, _, _) => !(after Sess.DelAll(_)) && !(after Sess.Del("last_action"))
 //@   ensures[C17] no_secret_leak: secrets_clean
 //@   -- C01/C02/C13: the session is completed only for the logged-in user, or - when nobody is
 //@   -- logged in - for the account parked in totp_pending, and only with that account's own factor
